@@ -638,7 +638,6 @@ func (in *Interp) opaqueCall(fn *ssa.Function, args []Value, policy string) Valu
 	return in.zeroResults(fn)
 }
 
-
 // errorOperands returns the operand list with every error value that is
 // printed through %w, %v or %s replaced by the text its Error method returns
 // (executed symbolically like any other call), so that messages built from
